@@ -12,7 +12,7 @@ import schedlib, os, re, json, vlib
 SDY = os.path.join(vlib.SPEC, 'sync'); SDS = os.path.join(vlib.SPEC, 'sched')
 SC_Q = ['mon_all', 'mon_all22', 'mon_one', 'mon_pred', 'mon_abort', 'bq', 'bq2', 'bq13', 'mtx', 'rwm', 'rwu', 'tgwait', 'exec1x3', 'suspF',
         'enq', 'enq1', 'enq0', 'enq0', 'enq03', 'enqL1', 'enq1L1', 'enqL2x2', 'enqx2']
-HOLD = ['tgwaitH', 'tgwait3H', 'exec1x3H', 'exec1x4H', 'suspFH', 'suspF2H', 'enqH', 'enq1H', 'enqL1H', 'enqx2H']     # sleeping paths entered on purpose (long runs)
+HOLD = ['mtx2a', 'mtx2b', 'mtx2c', 'mtx2d', 'tgwaitH', 'tgwait3H', 'exec1x3H', 'exec1x4H', 'suspFH', 'suspF2H', 'enqH', 'enq1H', 'enqL1H', 'enqx2H']     # sleeping paths entered on purpose (long runs)
 TSO = ['mon_all', 'mon_all22', 'mon_one', 'mon_pred', 'mon_abort', 'bq', 'bq13', 'mtx', 'rwm', 'rwu', 'tgwait', 'exec1x3', 'suspF']
 
 
